@@ -13,6 +13,8 @@
          floats / doubles equals the file written from the ints `floatTwin` = the rounded product placed in the top bits.
          The factor is the codec's own (`Codec.scale`: 2^(w-1) − 1 for PCM, DPCM, IMA, MS, GSM, VOX, PAF, DWVW;
          2^(w-1) for G.72x, NMS and — truncating — SDS), formed and rounded in the caller's floating type (`Sf.Block.mulNf`).
+         "with normalisation off integers pass through unscaled": the factor is then 1 — 2^`woff` for the codecs whose working
+         sample is the 32-bit int (PAF 24-bit: 2^8, SDS: 2^bitwidth), so that the value lands in the stored bits.
   (R)  "Reading the same stored sample through different API types gives results that agree under these rules":
        per item, short read = int read asr 16; "float/double reads of w-bit integer data return value/2^(w-1)": the
        float / double read is the int read / 2^31 rounded ONCE to the caller's type (exact whenever the sample has ≤ 24
@@ -45,6 +47,7 @@ structure Codec where
   noff  : Nat := 16          -- normalisation off: float read = int read / 2^noff
   scale : Int := 0x7FFF      -- normalisation on: float write multiplies by (T) scale
   trunc : Bool := false      -- the float write converts by a C cast (SDS), not by lrint
+  woff  : Nat := 0           -- normalisation off: float write multiplies by 2^woff (PAF 24-bit: 8, SDS: its bit width; else 1.0)
   ch    : Nat := 1
 deriving Repr, Inhabited
 
@@ -65,7 +68,7 @@ def widenOf (s : Int) : Int := s * 65536
 /-- the int that must give the same file as the float / double `x` (bit pattern) -/
 def floatTwin (cd : Codec) (cv : Conv) (ty : Ty) (x : Nat) : Int :=
   let f := fmtOf ty
-  let nf : Dy := if cv.norm ty then f.toDy (f.ofInt cd.scale) else pow2 0
+  let nf : Dy := if cv.norm ty then f.toDy (f.ofInt cd.scale) else pow2 cd.woff
   let prod := mulNf f nf x
   let r := if cd.trunc then truncInt prod else lrintInt cv.variant prod
   wrapS 32 (r * 2 ^ (32 - cd.fw))
